@@ -51,7 +51,16 @@ type Result struct {
 	Callbacks int64      `json:"callbacks,omitempty"`
 	G0        int        `json:"-"`
 	Parser    *parserObs `json:"parser,omitempty"`
+	Pre       []preObs   `json:"exchanges_before,omitempty"`
+	Conns     int        `json:"connections_used,omitempty"`
 	LeakStack string     `json:"leak_stack,omitempty"`
+}
+
+type preObs struct {
+	RespNil bool   `json:"resp_nil"`
+	Status  int    `json:"status"`
+	BodyLen int    `json:"body_len"`
+	BodyErr string `json:"body_err,omitempty"`
 }
 
 type countWriter struct{ n int64 }
@@ -62,6 +71,7 @@ func (w *countWriter) Write(p []byte) (int, error) {
 }
 
 type world struct {
+	h3       *h3peer
 	h2       *h2peer
 	reported map[string]bool // goroutine ids already attributed to an earlier case
 	peer     *rawPeer
@@ -88,7 +98,9 @@ func buildClient(o Opts, kind string) *req.Client {
 		to = time.Duration(o.TimeoutMs) * time.Millisecond
 	}
 	c.SetTimeout(to)
-	if kind == "h2" {
+	if kind == "h3" {
+		c.EnableInsecureSkipVerify().EnableForceHTTP3()
+	} else if kind == "h2" {
 		c.EnableH2C().EnableForceHTTP2()
 		if o.H2MaxHeaderList > 0 {
 			c.SetHTTP2MaxHeaderListSize(uint32(o.H2MaxHeaderList))
@@ -144,9 +156,15 @@ func (w *world) attempt(cs *Case, data [][]byte) *Result {
 	w.peer.scripts.Store(id, sc)
 	defer w.peer.scripts.Delete(id)
 	addr := w.peer.addr()
+	scheme := "http://"
 	if cs.Kind == "h2" {
 		w.h2.cur.Store(&sc.rounds[0])
 		addr = w.h2.addr()
+	}
+	if cs.Kind == "h3" {
+		w.h3.cur.Store(&h3job{rd: sc.rounds[0], x: *cs.H3})
+		addr = w.h3.addr()
+		scheme = "https://"
 	}
 
 	c := buildClient(cs.Opts, cs.Kind)
@@ -154,7 +172,13 @@ func (w *world) attempt(cs *Case, data [][]byte) *Result {
 	defer func() {
 		// cleanup must not wedge the harness when the library is wedged
 		d := make(chan struct{})
-		go func() { c.GetTransport().CloseIdleConnections(); close(d) }()
+		go func() {
+			c.GetTransport().CloseIdleConnections()
+			if cs.Kind == "h3" {
+				c.GetTransport().VerifCloseHTTP3()
+			}
+			close(d)
+		}()
 		select {
 		case <-d:
 		case <-time.After(3 * time.Second):
@@ -162,7 +186,7 @@ func (w *world) attempt(cs *Case, data [][]byte) *Result {
 	}()
 	cw := &countWriter{}
 	var ncb int64
-	url := "http://" + addr + "/c/" + id
+	url := scheme + addr + "/c/" + id
 	done := make(chan struct{})
 	var mu sync.Mutex
 	go func() {
@@ -206,9 +230,24 @@ func (w *world) attempt(cs *Case, data [][]byte) *Result {
 		if cs.Method == "POST" {
 			r.SetBodyString("hello=world")
 		}
+		for i := 0; i < cs.Pre; i++ {
+			// earlier exchanges of the same client (same connection when the response allowed it)
+			pr, _ := c.R().Get(url)
+			po := preObs{RespNil: pr == nil || pr.Response == nil}
+			if !po.RespNil {
+				po.Status, po.BodyLen = pr.StatusCode, len(pr.Bytes())
+				if pr.Err != nil {
+					po.BodyErr = pr.Err.Error()
+				}
+			}
+			mu.Lock()
+			res.Pre = append(res.Pre, po)
+			mu.Unlock()
+		}
 		resp, err := r.Send(cs.Method, url)
 		mu.Lock()
 		defer mu.Unlock()
+		res.Conns = int(atomic.LoadInt32(&sc.conns))
 		if err != nil {
 			res.Err = err.Error()
 		}
@@ -380,7 +419,7 @@ func (w *world) runCase(cs *Case) *Result {
 					if strings.Contains(g, "dump.(*Dumper).Start") {
 						continue // the client-level dumper's own goroutine lives as long as the client (by design), not per response
 					}
-					if strings.Contains(g, "handlePendingAltSvc") || strings.Contains(g, "quic-go") {
+					if strings.Contains(g, "handlePendingAltSvc") || (strings.Contains(g, "quic-go") && !strings.Contains(g, "req/v3/internal/http3.")) {
 						continue // an Alt-Svc probe dialling a dead UDP port ends by its own handshake timeout
 					}
 					w.reported[gid] = true
